@@ -56,9 +56,16 @@ func commonTab(c *Ctx) string {
 	return "From Avo Require Import Base.Prelude.\nFrom stdpp Require Import gmap.\nFrom Avo Require Import Base.MaskSet Model.IR Model.RegFile Model.Pipeline.\nOpen Scope N_scope.\n" +
 		"(* reg/x86.go register families as registered at run time; pass order from pass/pass.go *)\n" +
 		regTableCoq() +
-		"Definition pass_order : list string := " + cStrs(translatePassOrder(c.Repo)) + ".\n" +
-		"Lemma pass_order_ok : pass_order = modelled_pass_order.\nProof. reflexivity. Qed.\nPrint Assumptions pass_order_ok.\n" +
 		"Lemma info_constants_ok : info_restricted = InfoRestricted /\\ info_basepointer = InfoBasePointer.\nProof. split; reflexivity. Qed.\nPrint Assumptions info_constants_ok.\n"
+}
+
+// orderFile is the pass order of pass.Compile as read from pass/pass.go, compared with the order the
+// staged model runs; kept apart from Tab.v so that the case files still run (and find a concrete
+// failing program) when the order changes
+func orderFile(c *Ctx) string {
+	return "From Avo Require Import Base.Prelude Model.Pipeline.\n" +
+		"Definition pass_order : list string := " + cStrs(translatePassOrder(c.Repo)) + ".\n" +
+		"Lemma pass_order_ok : pass_order = modelled_pass_order.\nProof. reflexivity. Qed.\nPrint Assumptions pass_order_ok.\n"
 }
 
 type cfgOutcome struct {
@@ -167,7 +174,7 @@ func c09(c *Ctx) {
 	o := c.Out
 	o.WriteFile("Tab.v", commonTab(c))
 	o.Stage("Tab.v")
-	o.Oblig("Tab.pass_order_ok", "Tab.info_constants_ok")
+	o.Oblig("Tab.info_constants_ok")
 	rng := NewRNG(c.Seed)
 	n := 400
 	if c.Thorough() {
